@@ -13,7 +13,7 @@ RULE = ("evaluate: case = expression text. Layers: every token sequence up to a 
         "parser implementing the stated precedence + exact Fraction evaluation with a rigorous forward error bound for binary64; cases where "
         "a floor() sits within that bound of a discontinuity, and unparenthesised chains mixing \\ with * or /, are skipped and counted. "
         "Invalid texts may only raise MathExpressionException/ZeroDivisionError; texts with foreign characters, a trailing binary operator or an "
-        "unclosed parenthesis must raise MathExpressionException. extract: every string ≤ 5 over `1.+() a]` × every position × 3 option sets + "
+        "unclosed parenthesis or a decimal point with no digit on either side must raise MathExpressionException; `12.` before a non-digit must raise or be read as 12 (never dropped). extract: every string ≤ 5 over `1.+() a]` × every position × 3 option sets + "
         "random texts with embedded expressions; oracle = range/charset/balance/end-position predicate. "
         "Non-trivial (evaluate): valid expression with ≥ 2 binary operators of different precedence or a unary sign directly after an operator; "
         "(extract) a non-None result. Distinct by text (and position/options).")
@@ -96,8 +96,29 @@ def check_eval(case, rec, distinct=False):
             # more `(` than `)`: unclosed whichever way one counts (a stray `)` is tolerated by the library and not claimed either way)
             if sum(v == '(' for k, v in toks) > sum(v == ')' for k, v in toks):
                 must = True
+        # a decimal point with no digit on either side is no token of the grammar at all
+        digits = '0123456789'
+        lone = any(c == '.' and (i == 0 or text[i - 1] not in digits) and (i + 1 >= len(text) or text[i + 1] not in digits) for i, c in enumerate(text))
+        if lone:
+            must = True
         if must and not isinstance(exc, MathExpressionException):
             rec.fail('malformed-accepted', 'malformed input evaluated to %r (%r)' % (got, exc))
+            return
+        # `12.` followed by no digit: not a number of the grammar; should an implementation read it leniently as 12 the value must be the one
+        # arithmetic gives with that reading — silently dropping characters is not covered by either reading
+        trailing = [i for i, c in enumerate(text) if c == '.' and i > 0 and text[i - 1] in digits and (i + 1 >= len(text) or text[i + 1] not in digits)]
+        if trailing and exc is None and all(c in OKCH for c in text):
+            lenient = ''.join(c for i, c in enumerate(text) if i not in trailing)
+            r2 = M.reference(lenient)
+            if r2[0] == 'value':
+                v, e = r2[1], r2[2]
+                tol = max(16 * e, Fraction(1, 10 ** 9) * max(1, abs(v)))
+                try:
+                    bad = abs(Fraction(got) - v) > tol
+                except (OverflowError, ValueError, TypeError):
+                    bad = True
+                if bad:
+                    rec.fail('malformed-accepted:characters-dropped', 'text %r is malformed (digits followed by a bare decimal point); evaluate returned %r, which is not even the value %s of the lenient reading %r' % (text, got, float(v), lenient))
     # excluded / unstable: only the exception-type clause (already enforced above)
 
 
